@@ -24,7 +24,7 @@ class SortableDict(col.MutableMapping):
         # Copy initial values into dict.
         if initial is not None:
             # If we're given a dict; make it a list of items
-            if isinstance(initial, dict):
+            if isinstance(initial, col.Mapping):
                 initial = list(initial.items())
 
             for (key, val) in initial:
